@@ -372,8 +372,10 @@ int hwloc_topology_diff_build(hwloc_topology_t topo1,
 			if (!!dist1 != !!dist2)
                           goto roottoocomplex;
 			if (dist1->unique_type != dist2->unique_type
-			    || dist1->different_types || dist2->different_types /* too lazy to support this case */
+			    || !!dist1->different_types != !!dist2->different_types
 			    || dist1->nbobjs != dist2->nbobjs
+			    || (dist1->different_types
+				&& memcmp(dist1->different_types, dist2->different_types, dist1->nbobjs * sizeof(*dist1->different_types)))
 			    || dist1->kind != dist2->kind
 			    || memcmp(dist1->values, dist2->values, dist1->nbobjs * dist1->nbobjs * sizeof(*dist1->values)))
                           goto roottoocomplex;
